@@ -122,15 +122,22 @@ def store_shard(serializer: str, kind: str, seed: int, examples: int, known: lis
         mutated_copy = copy.deepcopy(val)
         ref_m = cds.serialize(val, disable_cache=disable_arg)
         ref_m2 = cds.serialize(mutated_copy, disable_cache=disable_arg)
-        if ref_m != ref_m2 or (is_ref and ref_m == ref):
+        # content = the serialized form: unordered containers (sets) may serialise equal values differently, which the
+        # statement does not exclude ("equal content gives the same reference")
+        canon_m = ser.serialize(val) == ser.serialize(mutated_copy)
+        if not canon_m:
+            part.event("equal_values_serialise_differently")
+        if (canon_m and ref_m != ref_m2) or (is_ref and ref_m == ref):
             rep.fail(f"store:{kind}:stale-reference-for-mutated-object", f"serialize() of an object mutated in place returned {'the old reference' if ref_m == ref else 'another reference than for equal content'}")
         if cds.is_reference(ref_m):
             cds._deserialized_cache.clear()
             back_m = cds.resolve(ref_m)
             if not V.same(back_m, mutated_copy):
                 rep.fail(f"store:{kind}:resolve-mutated-resend", f"a fresh reader resolves {back_m!r:.100} for the re-sent mutated value {mutated_copy!r:.100}")
-        ref2 = cds.serialize(copy.deepcopy(original), disable_cache=disable_arg)
-        rep.check(ref2 == ref, f"store:{kind}:content-addressing", "equal content gave a different reference / inline string")
+        again = copy.deepcopy(original)
+        ref2 = cds.serialize(again, disable_cache=disable_arg)
+        if ser.serialize(again) == ser.serialize(original):
+            rep.check(ref2 == ref, f"store:{kind}:content-addressing", "equal content gave a different reference / inline string")
         # eviction pressure, then resolve again
         for o in others:
             cds.serialize({"o": o, "pad": "y" * minsize})
